@@ -470,6 +470,145 @@ Proof.
     cbn [is_empty]. rewrite <- !app_assoc. reflexivity.
 Qed.
 
+(* ================================================================== the general splice *)
+(** the text BEFORE the substitution may contain dollars (none directly followed by an open paren) and
+    newlines; the text AFTER it may continue on further lines *)
+Lemma span_not_nl_stop (s r : str) : ~ In 10 s -> span not_nl (s ++ 10 :: r) = (s, 10 :: r).
+Proof.
+  induction s as [|c s IH]; intros H; [reflexivity|].
+  cbn [app span]. unfold not_nl at 1.
+  destruct (c =? 10) eqn:E.
+  - apply N.eqb_eq in E. exfalso. apply H. left. exact E.
+  - cbn [negb]. rewrite IH; [reflexivity|]. intros X. apply H. right. exact X.
+Qed.
+
+Lemma dollar_at_lines (cmd tail post : str) :
+  cmd <> [] -> ~ In 10 cmd -> ~ In 10 tail -> ~ In 41 tail ->
+  (post = [] \/ exists r, post = 10 :: r) ->
+  dollar_at (cmd ++ 41 :: tail ++ post) = Some (cmd, tail, post).
+Proof.
+  intros Hne Hc Ht H41 [->|(r & ->)].
+  - rewrite app_nil_r. apply dollar_at_mid; assumption.
+  - unfold dollar_at, split_nl.
+    replace (cmd ++ 41 :: tail ++ 10 :: r) with ((cmd ++ 41 :: tail) ++ 10 :: r)
+      by (rewrite <- app_assoc; reflexivity).
+    rewrite span_not_nl_stop.
+    + rewrite split_last_mid by exact H41. destruct cmd; [congruence|reflexivity].
+    + intros X. apply in_app_or in X as [X|[X|X]]; [tauto | discriminate | tauto].
+Qed.
+
+Lemma find_dollar_gen (before cmd tail post : str) :
+  has_dollar_paren before = false ->
+  cmd <> [] -> ~ In 10 cmd -> ~ In 10 tail -> ~ In 41 tail -> (post = [] \/ exists r, post = 10 :: r) ->
+  find_dollar (before ++ 36 :: 40 :: cmd ++ 41 :: tail ++ post) = Some (before, cmd, tail, post).
+Proof.
+  intros Hb Hne Hc Ht H41 Hp. induction before as [|c before IH].
+  - cbn [app find_dollar]. rewrite N.eqb_refl. cbn [strip_prefix]. rewrite N.eqb_refl.
+    rewrite dollar_at_lines by assumption. reflexivity.
+  - assert (Hb' : has_dollar_paren before = false).
+    { destruct before as [|b before]; [reflexivity|].
+      rewrite has_dollar_paren_cons2 in Hb. apply orb_false_iff in Hb as [_ Hb]. exact Hb. }
+    cbn [app find_dollar].
+    assert (E : (if c =? 36
+                 then match strip_prefix [40] (before ++ 36 :: 40 :: cmd ++ 41 :: tail ++ post) with
+                      | Some r' => dollar_at r' | None => None end
+                 else None) = None).
+    { destruct (c =? 36) eqn:C; [|reflexivity].
+      destruct before as [|b before].
+      - reflexivity.
+      - rewrite has_dollar_paren_cons2 in Hb. apply orb_false_iff in Hb as [Hb _].
+        rewrite C in Hb. cbn [andb] in Hb. cbn [app strip_prefix].
+        rewrite N.eqb_sym, Hb. reflexivity. }
+    rewrite E. rewrite (IH Hb'). reflexivity.
+Qed.
+
+Theorem dollar_loop_splices_gen : forall W (before cmd tail post : str) f,
+  has_dollar_paren before = false ->
+  cmd <> [] -> ~ In 41 cmd -> ~ In 10 cmd -> ~ In 10 tail -> ~ In 41 tail -> (post = [] \/ exists r, post = 10 :: r) ->
+  (~ In 61 (before ++ [36; 40] ++ cmd ++ [41] ++ tail ++ post) \/ ~ In 39 (before ++ [36; 40] ++ cmd ++ [41] ++ tail ++ post)) ->
+  has_dollar_paren (before ++ trim (oracle_out W cmd) ++ tail ++ post) = false ->
+  dollar_loop (S (S f)) W (before ++ [36; 40] ++ cmd ++ [41] ++ tail ++ post) []
+  = Ok (Some (before ++ trim (oracle_out W cmd) ++ tail ++ post), [cmd]).
+Proof.
+  intros W before cmd tail post f Hb Hne Hc41 Hc10 Ht10 Ht41 Hp Hx Ho.
+  rewrite dollar_loop_S.
+  assert (Hs : should_do_dollar (before ++ [36; 40] ++ cmd ++ [41] ++ tail ++ post) = true).
+  { unfold should_do_dollar. rewrite (dollar_alias_off _ Hx).
+    change (before ++ [36; 40] ++ cmd ++ [41] ++ tail ++ post)
+      with (before ++ 36 :: 40 :: cmd ++ 41 :: (tail ++ post)).
+    rewrite dollar_cmd_search by assumption. reflexivity. }
+  rewrite Hs. cbn [negb].
+  change (before ++ [36; 40] ++ cmd ++ [41] ++ tail ++ post)
+    with (before ++ 36 :: 40 :: cmd ++ 41 :: tail ++ post).
+  rewrite find_dollar_gen by assumption.
+  rewrite dollar_splice_eq.
+  rewrite dollar_loop_S.
+  erewrite should_do_needs_dollar_paren by exact Ho. reflexivity.
+Qed.
+
+(* ================================================================== the index buffer of the dollar pass *)
+(** do_command_substitution_for_dollar keeps a hand-counted index over ALL tokens and writes the new
+    texts back by index: that is the per-token recursion [dollar_pass] *)
+Lemma set_text_at_pre (pre : tokens) tg (x s : str) (r : tokens) :
+  set_text (length pre) s (pre ++ (tg, x) :: r) = pre ++ (tg, s) :: r.
+Proof. induction pre as [|[a b] pre IH]; cbn; [reflexivity|]. rewrite IH. reflexivity. Qed.
+
+Lemma apply_texts_cons (i : nat) (s : str) (b : list (nat * str)) (toks : tokens) :
+  apply_texts ((i, s) :: b) toks = set_text i s (apply_texts b toks).
+Proof. unfold apply_texts. cbn [rev]. rewrite fold_left_app. reflexivity. Qed.
+
+Lemma dollar_collect_pass fuel W : forall (toks pre : tokens) (log : list str),
+  match dollar_pass fuel W toks log with
+  | Ok (Some ts, l) =>
+      exists b, dollar_collect fuel W toks (length pre) log = Ok (Some b, l)
+                /\ apply_texts b (pre ++ toks) = pre ++ ts
+  | Ok (None, l) => dollar_collect fuel W toks (length pre) log = Ok (None, l)
+  | Panic s => dollar_collect fuel W toks (length pre) log = Panic s
+  | OutOfFuel => dollar_collect fuel W toks (length pre) log = OutOfFuel
+  end.
+Proof.
+  induction toks as [|[tg text] r IH]; intros pre log.
+  - cbn [dollar_pass dollar_collect]. exists []. split; reflexivity.
+  - assert (Hshift : forall (t : token) (q : tokens), pre ++ t :: q = (pre ++ [t]) ++ q)
+      by (intros t q; rewrite <- app_assoc; reflexivity).
+    assert (Hlen : S (length pre) = length (pre ++ [(tg, text)]))
+      by (rewrite app_length; cbn; rewrite Nat.add_1_r; reflexivity).
+    cbn [dollar_pass dollar_collect].
+    destruct (tag_eqb tg TSq || tag_eqb tg TBs || negb (should_do_dollar text)).
+    + specialize (IH (pre ++ [(tg, text)]) log). rewrite <- Hlen in IH.
+      destruct (dollar_pass fuel W r log) as [[[ts|] l]|s|]; cbn [bind option_map fst snd].
+      * destruct IH as (b & Hc & Ha). exists b. split; [exact Hc|].
+        rewrite (Hshift (tg, text) r). etransitivity; [exact Ha|].
+        rewrite <- app_assoc. reflexivity.
+      * exact IH.
+      * exact IH.
+      * exact IH.
+    + destruct (dollar_loop fuel W text log) as [[[line|] l1]|s|]; cbn [bind fst snd]; try reflexivity.
+      specialize (IH (pre ++ [(tg, text)]) l1). rewrite <- Hlen in IH.
+      destruct (dollar_pass fuel W r l1) as [[[ts|] l]|s|]; cbn [bind option_map fst snd].
+      * destruct IH as (b & Hc & Ha). exists ((length pre, line) :: b). split.
+        { rewrite Hc. reflexivity. }
+        rewrite apply_texts_cons, (Hshift (tg, text) r).
+        etransitivity; [apply f_equal; exact Ha|].
+        rewrite <- app_assoc. cbn [app]. apply set_text_at_pre.
+      * rewrite IH. reflexivity.
+      * rewrite IH. reflexivity.
+      * rewrite IH. reflexivity.
+Qed.
+
+Theorem subst_dollar_eq : forall fuel W toks log,
+  subst_dollar fuel W toks log
+  = res_map (fun x => (match fst x with Some t => t | None => toks end, snd x)) (dollar_pass fuel W toks log).
+Proof.
+  intros fuel W toks log. unfold subst_dollar.
+  pose proof (dollar_collect_pass fuel W toks [] log) as H. cbn [length app] in H.
+  destruct (dollar_pass fuel W toks log) as [[[ts|] l]|s|].
+  - destruct H as (b & -> & Ha). cbn [res_map fst snd]. rewrite Ha. reflexivity.
+  - rewrite H. reflexivity.
+  - rewrite H. reflexivity.
+  - rewrite H. reflexivity.
+Qed.
+
 Print Assumptions dollar_splice_eq.
 Print Assumptions dollar_loop_splices.
 Print Assumptions dollar_loop_unplannable.
@@ -478,3 +617,5 @@ Print Assumptions dot_loop_one.
 Print Assumptions should_do_needs_dollar_paren.
 Print Assumptions has_dollar_paren_no_dollar.
 Print Assumptions has_dollar_paren_no_paren.
+Print Assumptions dollar_loop_splices_gen.
+Print Assumptions subst_dollar_eq.
